@@ -6,11 +6,24 @@ import os
 import re
 import subprocess
 
+import sys
 VERIF = os.path.dirname(os.path.dirname(os.path.abspath(__file__)))
+# usage: seedreport.py [--only C11-3 C02-3 …]: re-run only these and keep the other rows of the existing report
+only = sys.argv[2:] if len(sys.argv) > 2 and sys.argv[1] == '--only' else None
 rows = []
+old = {}
+if only:
+    for line in open(os.path.join(VERIF, 'seeded', 'REPORT.md')):
+        c = [x.strip() for x in line.strip().strip('|').split(' | ')]
+        if len(c) == 8 and re.match(r'C\d\d-\d+$', c[0]):
+            old[c[0]] = (c[0], c[1], c[2], c[3], int(c[4]), int(c[5]), int(c[6]), c[7])
 for d in sorted(os.listdir(os.path.join(VERIF, 'seeded'))):
     full = os.path.join(VERIF, 'seeded', d)
     if not os.path.exists(os.path.join(full, 'patch.diff')):
+        continue
+    if only and d not in only:
+        if d in old:
+            rows.append(old[d])
         continue
     prop = d.split('-')[0]
     out = subprocess.run(['python3', os.path.join(VERIF, 'tools', 'seedtest.py'), full, prop], capture_output=True, text=True).stdout
